@@ -72,6 +72,7 @@ pub fn run(r: &mut Report, ctx: &Ctx) {
     per_variant::<VNormalLC>(r, ctx);
     per_variant::<VLong>(r, ctx);
     per_variant::<VLongLC>(r, ctx);
+    crate::seq::section(r, ctx, "codec");
 }
 
 fn rb<V: Variant>(b: &[u8]) -> Result<(), String> {
